@@ -185,6 +185,11 @@ class _Canon(ast.NodeTransformer):
                 and len(n.args) == 2 and not n.keywords and all(_boolish(a) for a in n.args):
             op = ast.BitAnd() if f.attr == "logical_and" else ast.BitOr()
             return self.visit_BinOp(ast.copy_location(ast.BinOp(left=n.args[0], op=op, right=n.args[1]), n))
+        # list((a, b)) / list([a, b]) -> [a, b];  tuple([a, b]) / tuple((a, b)) -> (a, b)
+        if isinstance(f, ast.Name) and f.id in ("list", "tuple") and len(n.args) == 1 and not n.keywords and isinstance(n.args[0], (ast.Tuple, ast.List)) \
+                and not any(isinstance(e, ast.Starred) for e in n.args[0].elts):
+            cls_ = ast.List if f.id == "list" else ast.Tuple
+            return ast.copy_location(cls_(elts=list(n.args[0].elts), ctx=ast.Load()), n)
         # dict(a, **b) -> {**a, **b}
         if isinstance(f, ast.Name) and f.id == "dict" and len(n.args) == 1 and n.keywords and all(k.arg is None for k in n.keywords):
             return ast.copy_location(ast.Dict(keys=[None] * (1 + len(n.keywords)), values=[n.args[0]] + [k.value for k in n.keywords]), n)
